@@ -43,6 +43,7 @@ def run(ctx):
     ctx.trusted += ["hand-written model Obs/Resample.v tied to obs.py by correspondence", "numpy Generator.integers / md5 (default seeding) and scipy lstsq are oracles"]
     ctx.assumptions += ["tolerance max(2^-30, 64 n |value| 2^-53 / rms(delta)) capped at 2^-12 for the jackknife round trip (binary64 conditioning of (n mean - x)/(n - 1)); 2^-30 (x 2^12 for the lstsq-based import) for the bootstrap"]
     ctx.copy_props()
+    common.tie_pycore(ctx, ["Tie_jack.v"])
 
     njack = 200 if quick else 2000
     nmax = 64 if quick else 500
